@@ -169,11 +169,13 @@ def _prune(keep):
         return
     ents.sort(key=lambda p: os.path.getmtime(p), reverse=True)
     n = 0
+    now = time.time()
     for p in ents:
         if os.path.basename(p) == keep:
             continue
         n += 1
-        if n >= 2:
+        # a build used within the last hour may belong to a check that is still running
+        if n >= 2 and now - os.path.getmtime(p) > 3600:
             shutil.rmtree(p, ignore_errors=True)
 
 
